@@ -16,3 +16,21 @@ func ZZ_C19_mhcv_constructor() {
 		zzAssert(uint64(maxWeight) < pow && (m.bits == 0 || uint64(maxWeight) >= pow>>1), "bits = bit length of maxWeight")
 	}
 }
+
+// C19 ("a report whose measurement is outside the valid set is rejected"): the range check walks
+// the encoded measurement in chunks; every element, including the last partial chunk (the top
+// bits of the reported weight), must be covered by a gadget call: NumGadgetCalls =
+// ceil(MeasurementLen / chunkLength).  Bound: length, chunkLength < 256.
+//
+//zz: prop=C19 tier=quick backend=bv timeout=300
+func ZZ_C19_mhcv_gadget_calls_cover_the_measurement() {
+	length, maxWeight, chunk := uint(zzU8("length")), uint(zzU8("maxWeight")), uint(zzU8("chunkLength"))
+	m, err := newFlpMultiCountHotVec(length, maxWeight, chunk)
+	if err != nil {
+		return
+	}
+	zzReach("constructed")
+	calls := m.NumGadgetCalls
+	zzAssert(calls >= 1 && calls*chunk >= m.Valid.MeasurementLen && (calls-1)*chunk < m.Valid.MeasurementLen, "gadget calls = ceil(MeasurementLen / chunkLength): the bit check covers the whole measurement")
+	zzAssert(m.Valid.JointRandLen == calls, "one joint-randomness element per gadget call")
+}
